@@ -264,6 +264,7 @@ func runC09(p *Program, r *Report) {
 	// ---- R4 the lock is never taken twice -------------------------------------------------------------------
 	checkNoReentrantLock(p, r, "C09.R4")
 	checkNoEscaperCopy(p, r, "C09.R6")
+	checkTreeEmptiedOnlyOnBodyFailure(p, r, "C09.R8") // emptying the tree of a template that callers execute
 	checkNoSelfAddParseTree(p, r, "C09.R7")
 	// ---- R2 foreign objects ---------------------------------------------------------------
 	type fstore struct {
